@@ -421,6 +421,9 @@ func writePacketAdaptationField(w *astikit.BitsWriter, af *PacketAdaptationField
 
 	if af.IsOneByteStuffing {
 		b.Write(uint8(0))
+		if err := b.Err(); err != nil {
+			return 0, err
+		}
 		return 1, nil
 	}
 
